@@ -51,6 +51,8 @@ func sessionCacheSchedules(r *ev.Run) {
 		var done atomic.Int32
 		var mu sync.Mutex
 		var problems []string
+		got := map[string]*appencryption.Session{}
+		sameFirst := false
 		prog := func(label, part string) {
 			sched.SetLabel(label)
 			defer sched.ClearLabel()
@@ -62,6 +64,9 @@ func sessionCacheSchedules(r *ev.Run) {
 				mu.Unlock()
 				return
 			}
+			mu.Lock()
+			got[label] = s
+			mu.Unlock()
 			for k := 0; k < 2; k++ {
 				pl := []byte(fmt.Sprintf("%s-%d", label, k))
 				d, err := s.Encrypt(ctx, pl)
@@ -77,8 +82,15 @@ func sessionCacheSchedules(r *ev.Run) {
 			}
 			s.Close()
 		}
-		go prog("g1", "p0")
-		go prog("g2", "p1")
+		if i%3 == 2 {
+			// both ask for the same partition, which is not cached yet: concurrent first requests share one session
+			sameFirst = true
+			go prog("g1", "p1")
+			go prog("g2", "p1")
+		} else {
+			go prog("g1", "p0")
+			go prog("g2", "p1")
+		}
 		var trace []string
 		deadline := time.Now().Add(20 * time.Second)
 		for done.Load() < 2 && time.Now().Before(deadline) {
@@ -120,6 +132,10 @@ func sessionCacheSchedules(r *ev.Run) {
 		r.Count("session_cache_schedules", 1)
 		r.SetAdd("session_cache_schedule_traces", strings.Join(trace, ","))
 		r.Distinct("sc-sched|" + strings.Join(trace, ","))
+		if sameFirst && got["g1"] != nil && got["g2"] != nil && got["g1"] != got["g2"] {
+			// (nothing else was requested, so nothing could have evicted the partition between the two requests)
+			r.Violation("c16-session-not-shared:schedule", fmt.Sprintf("session cache %q size 1, schedule %v: two goroutines asked for the same partition at about the same time and were handed different sessions", cfg.SessPolicy, trace), map[string]any{"engine": "conc/c16-schedules", "trace": trace})
+		}
 		for _, p := range problems {
 			r.Violation("c16-held-session-unusable:schedule", fmt.Sprintf("session cache %q size 1, schedule %v: %s", cfg.SessPolicy, trace, p), map[string]any{"engine": "conc/c16-schedules", "trace": trace})
 		}
